@@ -121,6 +121,9 @@ def parse_python_version(version: str) -> tuple[int, int]:
     nums = version.split(".")
 
     if len(nums) == 2 and all(num.isdecimal() for num in nums):
+        if int(nums[0]) < 3:  # noqa: PLR2004
+            raise ValueError("refurb: Python versions below 3.0 are not supported")  # pragma: no cover
+
         return tuple(int(num) for num in nums)[:2]  # type: ignore
 
     raise ValueError("refurb: version must be in form `x.y`")
